@@ -376,6 +376,10 @@ void Interpret::interp(ASTNode& n) {
         }
     } catch (ApiException const &e) {
         notify_formatted(true, "%s", e.what());
+    } catch (std::exception const & e) {
+        notify_formatted(true, "%s", e.what());
+    } catch (...) {
+        notify_formatted(true, "unexpected internal error");
     }
 }
 
